@@ -40,6 +40,11 @@ INVALID = [
     [item("kwname", key="bg", name="on_blue")], [item("kwname", key="bg", name="bold")], [item("kwname", key="bg", name="")],
     [item("bool", key="strike", val=1)], [item("bool", key="color", val=0)], [item("bool", key="Bold", val=1)],
     [item("pos", name="bold"), item("pos", name="reddish")],
+    # a valid name with stray whitespace (a theme-file line passed on without strip())
+    [item("pos", name="red\n")], [item("pos", name="on_red\n")], [item("pos", name="bold\n")], [item("pos", name=" red")],
+    [item("pos", name="on_blue ")], [item("pos", name="on_blue\t")], [item("pos", name="On_Cyan\n")], [item("style", name="on_gray\n")],
+    [item("style", name="underline\n")], [item("kwname", key="fg", name="red\n")], [item("kwname", key="bg", name="blue\n")],
+    [item("pos", name="on_red\n\n")], [item("pos", name="\non_red")],
     # case variants: either ValueError or the lower-case meaning
     [item("pos", name="RED")], [item("pos", name="On_Blue")], [item("pos", name="BOLD")], [item("style", name="Red")],
     [item("kwname", key="fg", name="RED")], [item("pos", name="ON_RED")],
@@ -91,7 +96,7 @@ class C14(PureCheck):
             "{none,red,gray} fg x {none,blue,black} bg x {absent,False,True}^{bold,underline,invert}, each in every spelling "
             "(numbers+booleans, positional names, fg=/bg= names, style=, fmtfuncs nesting in both orders, copy_with_new_atts, "
             "nested single-attribute fmtstr calls in every order of <=3), overrides of an earlier value, the 25 fmtfuncs "
-            "names, a catalogue of 46 invalid specifications, new_with_atts_removed for name subsets, copy_with_new_str, "
+            "names, a catalogue of 59 invalid specifications (unknown words, wrong types, contradictions, out-of-range numbers, valid names with stray whitespace), new_with_atts_removed for name subsets, copy_with_new_str, "
             "shared_atts. distinct_nontrivial = distinct (base profile, steps) with a formatted or multi-run base or >=2 items")
     exhaustive = {"quick": False, "thorough": False}
 
